@@ -225,8 +225,9 @@ class Database(metaclass=ABCMeta):
                 version, = next(cast("Iterator[tuple[bytes]]", self.execute("SELECT value FROM option "
                                                                           "WHERE key == 'database_version' "
                                                                           "LIMIT 1")))
-            except OperationalError:
-                # the "database_version" key was not found
+            except (OperationalError, StopIteration):
+                # the "option" table or its "database_version" row was not found (the latter happens when the
+                # process was killed between the DELETE and the INSERT of the schema script)
                 version = b"0"
         else:
             # the "option" table probably hasn't been created yet
